@@ -42,6 +42,8 @@ class C20(Prop):
         "NV.C20.tie_giveuid_tree", "NV.C20.tie_giveuid_tree_premaster", "NV.C20.tie_giveuid_semantics", "NV.C20.tie_seteuid_tree",
         "NV.C20.tie_export_tree", "NV.C20.tie_reload_tree", "NV.C20.tie_set_master_tree", "NV.C20.tie_bind_tree",
         "NV.C20.tie_load_virtual_tree",
+        "NV.C20.tie_seteuid_write_dominated", "NV.C20.tie_giveuid_writes_dominated", "NV.C20.tie_export_write_dominated",
+        "NV.C20.tie_master_write_dominated", "NV.C20.tie_bind_write_dominated",
     ]
     consts = [("autoTrustBackbone", "NV_AUTO_TRUST_BACKBONE"), ("autoSeteuid", "NV_AUTO_SETEUID"),
               ("tNumber", "T_NUMBER"), ("tString", "T_STRING"), ("msMudlibLimbo", "MS_MUDLIB_LIMBO"),
